@@ -29,6 +29,9 @@ var propIncludes = map[string][]inc{
 	"C14": chain([]string{"TypeJSON"}),
 	"C15": {{"C10", rules("C10-R1")}, {"C08", rules("C08-R1")}},
 	"C17": {{"C16", map[string]func(string) bool{"C16-R3": prefix("header@")}}},
+	// sets "in the canonical form MySQL emits" reach the library as text and as the SID block of PREVIOUS_GTIDS events: the
+	// block reader must keep every interval it reads (C19-R4) for the set operations to be about the master's set
+	"C18": {{"C19", map[string]func(string) bool{"C19-R4": prefix("keep-all@")}}},
 	"C19": {{"C16", map[string]func(string) bool{"C16-R4": prefix("layout@mariadbBinlogEvent.GTID", "layout@mysql56BinlogEvent.GTID", "endian@mariadbBinlogEvent.GTID", "endian@mysql56BinlogEvent.GTID")}}, {"C18", rules("C18-R3")}},
 	"C20": {{"C13", map[string]func(string) bool{"C13-R2": prefix("three-way@")}}},
 }
